@@ -236,6 +236,10 @@ func spaces(tier string) []*gridx.Space {
 		}
 		out = append(out, &gridx.Space{Model: s.model, Params: params, PNames: names, Letters: t.Letters, T: T, Inits: s.inits, Oracle: oracle(s)})
 	}
+	// single calls over long series (1024 = a multiple of every power-of-two block size up to 1024; 1027 = no such multiple)
+	for _, s := range append([]*gridx.Space{}, out...) {
+		out = append(out, s.LongClones([]int{1024, 1027}, 3)...)
+	}
 	return out
 }
 
